@@ -1,13 +1,13 @@
 CONSTANTS
-  Procs = {1, 2}
+  Procs = {1, 2, 3}
   Kinds = {"out", "int"}
   LKinds = {"key"}
   Cap <- MCCap
   Mode = "enforce"
-  Lazy = FALSE
-  MaxOps = 2
-  MaxHeld = 1
-  OpSet = {"debit", "local", "retain", "finish"}
+  Lazy = TRUE
+  MaxOps = 3
+  MaxHeld = 0
+  OpSet = {"debit"}
   Atomic = FALSE
   GtBug = FALSE
 SPECIFICATION Spec
